@@ -10,7 +10,7 @@ path = os.path.join(ROOT, "known_findings.json")
 known = json.load(open(path))
 have = {(e["property"], e["signature"]) for e in known}
 n = 0
-for f in sorted(glob.glob(os.path.join(ROOT, "replays", pid, "*.json"))):
+for f in sorted(glob.glob(os.path.join(os.environ.get("VERIF_REPLAYS", os.path.join(ROOT, "replays")), pid, "*.json"))):
     r = json.load(open(f))
     if flt and flt not in r["signature"]:
         continue
